@@ -13,7 +13,7 @@ from .. import tdfref as R
 
 PROP = "C18"
 LABELS = ["", "a", "A", " a", "a "]
-RULE = ("states = (class, label tuple, origin built|decoded[, one edit: relabel item i / remove item i / append]); 156 label "
+RULE = ("states = (class, label tuple, origin built|decoded|foreign = decoded from bytes whose labels fill the field[, one edit: relabel item i / remove item i / append]); 156 label "
         "tuples x 4 classes x 2 origins, each also followed by every single edit with lookups before and after; ~35 key "
         "evaluations each ([], in, len, iter) against a plain Python list model; non-trivial = tuple has a duplicate "
         "label or an empty label")
